@@ -68,7 +68,7 @@ def run_c08(tier, replay=None):
     c.sample({"ToJson_json_head": json.dumps(evs[0]["json"])[:300]})
     validate(c, "C08", tr, "rand")
     c.cov["exhaustive"] = True
-    c.cov["rule"] = "presence lattice: every definition kind (all 15 primitives) x empty/non-empty path, params (with/without type), fields, variants, docs, names, type names, with non-ASCII and escaped strings and ids/lengths at 0, 2^16, 2^32-1: documented shape model-checked lossless, each case through real to_value/from_value/to_string/from_str; random registries recorded and validated by TLC (shape up to member order, documented keys only, inverse = original)"
+    c.cov["rule"] = "presence lattice: every definition kind (all 15 primitives) x empty/non-empty path, params (with/without type), fields, variants, docs, names, type names, with empty, non-ASCII and escaped strings at every string position and ids/lengths at 0, 2^16, 2^32-1: documented shape model-checked lossless, each case through real to_value/from_value/to_string/from_str; random registries recorded and validated by TLC (shape up to member order, documented keys only, inverse = original)"
     c.assumptions += ["serde_json::Value -> tagged tree transcoding (harness/vh/src/jv.rs) is lexical and trusted", "numbers fit u32 (the format's range)"]
     return c.finish()
 
